@@ -494,9 +494,197 @@ func ruleHistoryReset(c *Ctx) {
 func init() {
 	register("C16", "Followers converge to the leader's region view through region sync", func(c *Ctx) {
 		c.Group("C16/slice-congruence", "at every SyncRegionResponse literal carrying regions, Regions / RegionStats / RegionLeaders are length-congruent on every path and loop iteration", func() { ruleSyncArrays(c) })
+		c.Group("C16/sender-pairing", "meta, statistics and leader of one entry come from one region and one index; start indexes; full sync skipped only when exactly in sync", func() { ruleSenderPairing(c) })
 		c.Group("C16/leader-placeholder", "a leaderless region is sent with an empty peer in its slot", func() { ruleLeaderPlaceholder(c) })
 		c.Group("C16/history", "change-log buffer: fields under its lock; index++ and flush accounting on every record, persisted every defaultFlushCount=100; RecordsFrom answers only inside the window and returns a copy", func() { ruleHistoryBuffer(c); ruleHistoryReset(c) })
-		c.Group("C16/follower-apply", "the follower records a region only after put+save, indexes leaders/stats only under length guards, re-bases on index mismatch", func() { ruleFollowerApply(c); rulePerRegionLeader(c); ruleSyncMessageLimit(c) })
+		c.Group("C16/follower-apply", "the follower records a region only after put+save, indexes leaders/stats only under length guards, re-bases on index mismatch", func() { ruleFollowerApply(c); rulePerRegionLeader(c); ruleSyncMessageLimit(c); ruleFollowerFieldMap(c) })
 		c.Group("C16/staleness-atoms", "(shared with C06) synced regions carry no raft term: the precheck the follower applies them through compares terms only when the incoming region reports one", func() { ruleStalenessAtoms(c) })
 	})
+}
+
+// ruleSenderPairing: the follower pairs Regions[i] with RegionStats[i] and
+// RegionLeaders[i]; so in every loop of the sender that fills the three lists
+// the meta, the statistics and the leader are taken from one and the same
+// region of that iteration, and — where the lists are indexed — stored under
+// one and the same index. The start index of an incremental answer is the
+// requested one, that of a full-sync batch the running count of regions sent;
+// and the full synchronisation is skipped only for a follower that is exactly
+// at the leader's next index (or asked for a non-zero index).
+func ruleSenderPairing(c *Ctx) {
+	P := c.P
+	rule := c.Prop + "/sender-pairing"
+	fn := P.Method("server/region_syncer", "RegionSyncer", "syncHistoryRegion")
+	c.saw(fnName(fn))
+	getters := map[string]bool{"GetMeta": true, "GetStat": true, "GetLeader": true}
+	nLoops := 0
+	seenHdr := map[*ssa.BasicBlock]bool{}
+	for _, l := range loopsOf(fn) {
+		if seenHdr[l.header] {
+			continue
+		}
+		var recvs []ssa.Value
+		var idxs []ssa.Value
+		hasMeta := false
+		for b := range l.blocks {
+			for _, ins := range b.Instrs {
+				switch x := ins.(type) {
+				case *ssa.Call:
+					f := x.Call.StaticCallee()
+					if f == nil || !getters[f.Name()] || fnPkgPath(f) != modPath+"/server/core" || len(x.Call.Args) != 1 {
+						continue
+					}
+					if f.Name() == "GetMeta" {
+						hasMeta = true
+					}
+					recvs = append(recvs, x.Call.Args[0])
+				case *ssa.Store:
+					if ia, ok := x.Addr.(*ssa.IndexAddr); ok {
+						if _, isSlice := ia.X.Type().Underlying().(*types.Slice); isSlice {
+							idxs = append(idxs, ia.Index)
+						}
+					}
+				}
+			}
+		}
+		if !hasMeta {
+			continue
+		}
+		seenHdr[l.header] = true
+		nLoops++
+		lpos := fn.Pos()
+		for b := range l.blocks {
+			for _, ins := range b.Instrs {
+				if cl, ok := ins.(*ssa.Call); ok && cl.Call.StaticCallee() != nil && cl.Call.StaticCallee().Name() == "GetMeta" && cl.Pos().IsValid() {
+					lpos = cl.Pos()
+				}
+			}
+		}
+		okR, okI := true, true
+		for _, r := range recvs[1:] {
+			if !sameVal(r, recvs[0]) {
+				okR = false
+			}
+		}
+		for _, i := range idxs {
+			if !sameVal(i, idxs[0]) {
+				okI = false
+			}
+		}
+		c.Check(okR, rule, fmt.Sprintf("region read in list-filling loop #%d of %s", nLoops, fnName(fn)), "meta, statistics and leader of one entry come from the same region", P.pos(lpos), "the getters are called on different regions")
+		c.Check(okI, rule, fmt.Sprintf("index used in list-filling loop #%d of %s", nLoops, fnName(fn)), "the three lists are stored under the same index", P.pos(lpos), "different index expressions")
+	}
+	if nLoops < 2 {
+		c.Undec(rule, "list-filling loops in "+fnName(fn), "2 (full and incremental)", "", fmt.Sprint(nLoops))
+	}
+	// start index
+	pb := "github.com/pingcap/kvproto/pkg/pdpb"
+	startF := P.Field(pb, "SyncRegionResponse", "StartIndex")
+	reqStart := F(P.Method(pb, "SyncRegionRequest", "GetStartIndex"))
+	inLoop := func(b *ssa.BasicBlock) bool { return loopsContain(fn, b) }
+	k := 0
+	for _, st := range storesToField(fn, startF) {
+		k++
+		if !inLoop(st.Block()) {
+			c.Check(valueIsCallTo(st.Val, reqStart), rule, fmt.Sprintf("StartIndex #%d of %s (incremental)", k, fnName(fn)), "the index the follower asked for", P.instrPos(st), "")
+			continue
+		}
+		running := derivesFrom(st.Val, func(v ssa.Value) bool {
+			phi, ok := v.(*ssa.Phi)
+			if !ok {
+				return false
+			}
+			for _, e := range phi.Edges {
+				if bo, ok := e.(*ssa.BinOp); ok && bo.Op == token.ADD && (bo.X == ssa.Value(phi) && lenOf(anyVal)(bo.Y) || bo.Y == ssa.Value(phi) && lenOf(anyVal)(bo.X)) {
+					return true
+				}
+			}
+			return false
+		}, 3)
+		c.Check(running, rule, fmt.Sprintf("StartIndex #%d of %s (full sync)", k, fnName(fn)), "the running count of regions already sent (advanced by the length of every batch)", P.instrPos(st), "")
+	}
+	// skipping the full synchronisation
+	nextIdx := F(P.Method("server/region_syncer", "historyBuffer", "GetNextIndex"))
+	getRegions := P.IMethod("server/region_syncer", "Server", "GetRegions")
+	empty := guardRel("no history records", "== <=", lenOf(anyVal), isConstInt(0))
+	full := &calledEv{name: "GetRegions() (full synchronisation)", match: instrCallMatcher(getRegions)}
+	same := guardRel("own next index == requested index", "==", resultOfCall(nextIdx), resultOfCall(reqStart))
+	nonZero := guardRel("requested index != 0", "!=", resultOfCall(reqStart), isConstInt(0))
+	c.need(rule, fn, "return", func(x ssa.Instruction) bool { _, ok := x.(*ssa.Return); return ok }, []Ev{empty, full, same, nonZero},
+		func(h []bool) bool { return !h[0] || h[1] || h[2] || h[3] },
+		"without history records the follower gets a full synchronisation unless it is exactly at the leader's next index (or asked for a non-zero index)")
+}
+
+// ruleFollowerFieldMap: what the follower rebuilds from a message is the
+// leader's region: the four flow statistics go to the setters of the same
+// name, and an entry of RegionLeaders is taken as the leader only when its id
+// is non-zero (the sender's placeholder for "no leader").
+func ruleFollowerFieldMap(c *Ctx) {
+	P := c.P
+	rule := c.Prop + "/follower-apply"
+	pb := "github.com/pingcap/kvproto/pkg/pdpb"
+	want := map[string]string{"SetWrittenBytes": "BytesWritten", "SetWrittenKeys": "KeysWritten", "SetReadBytes": "BytesRead", "SetReadKeys": "KeysRead"}
+	newRI := F(P.Func("server/core", "NewRegionInfo"))
+	peerID := P.Field("github.com/pingcap/kvproto/pkg/metapb", "Peer", "Id")
+	getPeerID := F(P.Method("github.com/pingcap/kvproto/pkg/metapb", "Peer", "GetId"))
+	n := 0
+	for _, fn := range P.Funcs {
+		if P.isScaffold(fn) || fnPkgPath(fn) != modPath+"/server/region_syncer" {
+			continue
+		}
+		got := map[string]bool{}
+		for _, b := range fn.Blocks {
+			for _, ins := range b.Instrs {
+				cl, ok := ins.(*ssa.Call)
+				if !ok || cl.Call.StaticCallee() == nil {
+					continue
+				}
+				name := cl.Call.StaticCallee().Name()
+				if field, isSetter := want[name]; isSetter && fnPkgPath(cl.Call.StaticCallee()) == modPath+"/server/core" && len(cl.Call.Args) == 1 {
+					f := P.Field(pb, "RegionStat", field)
+					getter := F(P.Method(pb, "RegionStat", "Get"+field))
+					okArg := derivesFrom(cl.Call.Args[0], orPred(loadOfField(f), resultOfCall(getter)), 3)
+					got[name] = true
+					c.saw(fnName(outer(fn)))
+					c.Check(okArg, rule, name+" in "+fnName(outer(fn)), "fed from RegionStat."+field, P.instrPos(cl), "the statistic comes from another field")
+				}
+			}
+		}
+		if len(got) > 0 {
+			n++
+			c.Check(len(got) == 4, rule, "flow statistics rebuilt in "+fnName(outer(fn)), "all four (written/read × bytes/keys)", P.pos(fn.Pos()), fmt.Sprintf("%d of 4 setters used", len(got)))
+		}
+		// the leader handed to NewRegionInfo
+		done := map[*ssa.Phi]bool{}
+		for _, ci := range callsIn(fn, false, newRI) {
+			a := callArgs(ci.Common())
+			if len(a) < 2 {
+				continue
+			}
+			phi, isPhi := a[1].(*ssa.Phi)
+			if isPhi && done[phi] {
+				continue
+			}
+			if isPhi {
+				done[phi] = true
+			}
+			if !isPhi {
+				continue
+			}
+			for i, e := range phi.Edges {
+				if isNilConst(e) {
+					continue
+				}
+				// an entry of the message: its predecessor edge must imply id != 0
+				pred := phi.Block().Preds[i]
+				elem := e
+				nonZero := guardRel("entry id != 0", "!=", orPred(func(v ssa.Value) bool { return isLoadOf(v, peerID) }, resultOfCall(getPeerID)), isConstInt(0))
+				_, fails := requireAt(P, fn, 0, []Ev{nonZero}, func(x ssa.Instruction) bool { return x == pred.Instrs[len(pred.Instrs)-1] }, all)
+				_ = elem
+				c.Check(len(fails) == 0, rule, fmt.Sprintf("leader entry taken from the message in %s #%d", fnName(outer(fn)), i+1), "only an entry with a non-zero id is a leader (id 0 is the placeholder for none)", P.instrPos(ci), failDesc(fails))
+			}
+		}
+	}
+	if n == 0 {
+		c.Undec(rule, "follower loop rebuilding flow statistics", "found", "", "")
+	}
 }
